@@ -36,7 +36,8 @@ def uncps(l):
 def q_method(m):
     return {'fid': m['fid'], 'func': cps(m['func']), 'op': ocps(m.get('op')), 'in': ocps(m.get('in')),
             'out': ocps(m.get('out')), 'suffix': cps(m.get('suffix') or ''),
-            'patterns': [[None if v is None else [cps(a) for a in v], cps(addr)] for v, addr in m.get('patterns') or []]}
+            'patterns': [[None if v is None else [cps(a) for a in v], cps(addr)] for v, addr in m.get('patterns') or []],
+            'auxown': bool(m.get('auxown')), 'bare': m.get('bare') in ('bare', 'soaprpc'), 'barearg': bool(m.get('barearg'))}
 
 
 def q_req(r):
@@ -53,6 +54,12 @@ def q_req(r):
         return {'k': 'http', 'verb': cps(r[1]), 'path': cps(r[2]), 'query': cps(r[3] if len(r) > 3 else '')}
     if k in ('rpcb', 'keyb'):                       # the name as msgpack `bin`
         return {'k': k, 'b': list(r[1])}
+    if k in ('mnull', 'mtag', 'mkey', 'mrpc', 'mhttp', 'btag'):   # the same ways of naming, with the payload a member
+        return q_req((k[1:],) + tuple(r[1:]))                     # method ('self') or a bare method (text) needs
+    if k == 'keys':                                 # a dict document with zero or several keys
+        return {'k': 'keys', 'ns': [cps(n) for n in r[1]]}
+    if k == 'pkey':                                 # a member method named without its instance (T3 only)
+        return {'k': 'null', 'n': []}
     if k in ('rawkey', 'rawtag'):                   # bytes spliced into a text body: the parser is a third party (T3 only)
         return {'k': 'null', 'n': []}
     raise ValueError(r)
@@ -60,48 +67,122 @@ def q_req(r):
 
 def q_app(spec, order, requests=()):
     return {'op': 'app', 'tns': cps(spec['tns']),
-            'services': [{'mod': cps(s['mod']), 'name': cps(s['name']), 'aux': bool(s['aux']),
+            'services': [{'mod': cps(s['mod']), 'name': cps(s['name']), 'aux': bool(s['aux']), 'keymod': ocps(s.get('keymod')),
                           'methods': [q_method(m) for m in s['methods']]}
                          for s in (spec['services'][i] for i in order)],
+            'classes': [{'name': cps(c['name']), 'ns': ocps(c.get('ns')), 'methods': [q_method(m) for m in c['methods']]}
+                        for c in spec.get('classes') or []],
             'requests': [q_req(r) for r in requests]}
 
 
 # ------------------------------------------------------------------------------------ implementation side
-def _mkfunc(fid, name, calls):
-    def f():
+def _mkfunc(fid, name, calls, m=None, member=False):
+    """the user function: records its invocation; shape and failure mode as the spec says"""
+    m = m or {}
+
+    def body():
         calls.append(fid)
+        if m.get('raises') == 'fault':
+            from spyne.model.fault import Fault
+            raise Fault('Client.Custom', 'declared failure')
+        if m.get('raises') == 'error':
+            raise ValueError('undeclared failure')
+    if member and m.get('marg'):
+        def f(self, ctx, s):
+            body() if (getattr(self, 'i', None) == 1 and s == 'x') else calls.append(-fid)   # the instance / argument sent
+    elif member:
+        def f(self, ctx):
+            body() if getattr(self, 'i', None) == 1 else calls.append(-fid)
+    elif m.get('ctx') and m.get('barearg'):
+        def f(ctx, s):
+            body()
+    elif m.get('ctx'):
+        def f(ctx):
+            body()
+    elif m.get('barearg'):
+        def f(s):
+            body()
+    else:
+        def f():
+            body()
     f.__name__ = name
     f._fid = fid
     return f
 
 
-def make_services(spec, order, calls):
-    """fresh Service subclasses for one Application (spyne mutates descriptors while building an interface)"""
-    from spyne import Service, srpc
+def _decorate(m, calls, env, member=False):
+    from spyne import srpc, rpc, mrpc, Unicode
     from spyne.protocol.http import HttpPattern
     from spyne.auxproc.sync import SyncAuxProc
+    kw = {}
+    if m.get('op') is not None:
+        kw['_operation_name'] = m['op']
+    if m.get('in') is not None:
+        kw['_in_message_name'] = m['in']
+    if m.get('out') is not None:
+        kw['_out_message_name'] = m['out']
+    if m.get('suffix'):
+        kw['_internal_key_suffix'] = m['suffix']
+    if m.get('auxown'):
+        kw['_aux'] = SyncAuxProc()
+    if m.get('bare'):
+        if m.get('bare') == 'soapdoc':
+            kw['_soap_body_style'] = 'document'  # alias of 'wrapped', wins over the body style given
+            kw['_body_style'] = 'bare'
+        elif m.get('bare') == 'soaprpc':
+            kw['_soap_body_style'] = 'rpc'
+            kw['_body_style'] = 'wrapped'       # (the alias is only looked at when a body style is given)
+        else:
+            kw['_body_style'] = 'bare'
+    if m.get('header'):
+        kw['_in_header'] = (env['Hdr'],)
+        kw['_out_header'] = (env['Hdr'],)
+    if m.get('throws'):
+        kw['_throws'] = [env['Flt']]
+    if m.get('returns') is not None:
+        kw['_returns'] = env['classes'][m['returns']]
+        if m.get('returns_alt'):             # a customised copy: its member methods are met a second time
+            kw['_returns'] = kw['_returns'].customize(type_name=kw['_returns'].get_type_name() + 'Alt')
+    pats = [HttpPattern(addr, verb=None if v is None else '|'.join(v)) for v, addr in m.get('patterns') or []]
+    if len(pats) == 1 and m.get('pattern1'):
+        kw['_pattern'] = pats[0]
+    elif pats:
+        kw['_patterns'] = pats
+    params = [Unicode] if (m.get('barearg') or m.get('marg')) else []
+    dec = mrpc if member else (rpc if m.get('ctx') else srpc)
+    return dec(*params, **kw)(_mkfunc(m['fid'], m['func'], calls, m, member))
+
+
+def make_services(spec, order, calls):
+    """fresh Service (and ComplexModel) subclasses for one Application (spyne mutates descriptors while building
+    an interface)"""
+    from spyne import Service, ComplexModel, Integer
+    from spyne.model.fault import Fault
+    from spyne.auxproc.sync import SyncAuxProc
+    env = {'classes': []}
+    env['Hdr'] = type('C11Hdr', (ComplexModel,), {'__module__': 'c11models', 'token': Integer})
+    env['Flt'] = type('C11Flt', (Fault,), {'__module__': 'c11models'})
+    for c in spec.get('classes') or []:
+        d = {'__module__': 'c11models', 'i': Integer}
+        if c.get('ns') is not None:
+            d['__namespace__'] = c['ns']
+        for m in c['methods']:
+            d[m['func']] = _decorate(m, calls, env, member=True)
+        env['classes'].append(type(c['name'], (ComplexModel,), d))
     out = []
     for i in order:
         s = spec['services'][i]
         d = {'__module__': s['mod']}
         if s['aux']:
             d['__aux__'] = SyncAuxProc()
+        if s.get('keymod') is not None:
+            d['__service_module__'] = s['keymod']
+        if s.get('clsname') is not None:              # the class is called differently from the service
+            d['__service_name__'] = s['name']
         for m in s['methods']:
-            kw = {}
-            if m.get('op') is not None:
-                kw['_operation_name'] = m['op']
-            if m.get('in') is not None:
-                kw['_in_message_name'] = m['in']
-            if m.get('out') is not None:
-                kw['_out_message_name'] = m['out']
-            if m.get('suffix'):
-                kw['_internal_key_suffix'] = m['suffix']
-            pats = [HttpPattern(addr, verb=None if v is None else '|'.join(v)) for v, addr in m.get('patterns') or []]
-            if pats:
-                kw['_patterns'] = pats
-            d[m['func']] = srpc(**kw)(_mkfunc(m['fid'], m['func'], calls))
-        out.append(type(s['name'], (Service,), d))
-    return out
+            d[m['func']] = _decorate(m, calls, env)
+        out.append(type(s.get('clsname') or s['name'], (Service,), d))
+    return out, env
 
 
 def proto_pair(proto):
@@ -128,13 +209,13 @@ class Built:
         self.error = None          # ('decl'|'build'|'transport', exception class name)
         self.app = self.server = None
         try:
-            svcs = make_services(spec, order, self.calls)
+            svcs, self.env = make_services(spec, order, self.calls)
         except Exception as e:
             self.error = ('decl', type(e).__name__)
             return
         inp, outp = proto_pair(proto)
         try:
-            self.app = Application(svcs, spec['tns'], in_protocol=inp, out_protocol=outp)
+            self.app = Application(svcs, spec['tns'], in_protocol=inp, out_protocol=outp, classes=list(self.env['classes']))
         except Exception as e:
             self.error = ('build', type(e).__name__)
             return
@@ -164,8 +245,15 @@ class Built:
 
     def names(self):
         res = []
-        for s in self.app.services:
+        from spyne.model.complex import ComplexModelBase
+        owners = list(self.app.services)
+        for s in owners:
             for d in s.public_methods.values():
+                keyed = isinstance(d.in_message, type) and issubclass(d.in_message, ComplexModelBase)
+                res.append([getattr(d.function, '_fid', -1), d.name, d.in_message.get_namespace() if keyed else '',
+                            d.out_message.get_type_name(), d.out_message.get_namespace()])
+        for c in self.env['classes']:                 # member methods are routed after the service methods
+            for d in (c.Attributes.methods or {}).values():
                 res.append([getattr(d.function, '_fid', -1), d.name, d.in_message.get_namespace(),
                             d.out_message.get_type_name(), d.out_message.get_namespace()])
         return res
@@ -183,7 +271,10 @@ class Built:
             if self.proto == 'null':
                 from spyne.model.fault import Fault
                 try:
-                    self.server.service[r[1]]()
+                    if r[0] == 'mnull':       # a member method needs its instance (and its argument, if it has one)
+                        self.server.service[r[1]](*([self.env['classes'][r[2]](i=1)] + (['x'] if r[3] else [])))
+                    else:
+                        self.server.service[r[1]]()
                 except Fault as e:
                     self.faults.append(str(e.faultcode))
             else:
@@ -203,9 +294,34 @@ class Built:
         import json
         body, path, verb, ctype, query = b'', '/', 'POST', 'text/xml; charset=utf-8', ''
         p = self.proto
-        if r[0] == 'http':
+        if r[0] in ('http', 'mhttp'):
             verb, path = r[1], r[2]
             query = r[3] if len(r) > 3 else ''
+        elif r[0] == 'keys':
+            doc = {n: {} for n in r[1]}
+            if p == 'json':
+                body, ctype = json.dumps(doc).encode('utf8'), 'application/json'
+            elif p == 'yaml':
+                import yaml
+                body, ctype = yaml.safe_dump(doc, allow_unicode=True).encode('utf8'), 'text/yaml'
+            else:
+                import msgpack
+                body, ctype = msgpack.packb(doc), 'application/x-msgpack'
+        elif r[0] == 'pkey':
+            body, ctype = json.dumps({r[1]: {}}).encode('utf8'), 'application/json'
+        elif r[0] == 'mkey':
+            doc = {r[1]: {'self': {'i': 1}, 's': 'x'}}
+            if p == 'json':
+                body, ctype = json.dumps(doc).encode('utf8'), 'application/json'
+            elif p == 'yaml':
+                import yaml
+                body, ctype = yaml.safe_dump(doc, allow_unicode=True).encode('utf8'), 'text/yaml'
+            else:
+                import msgpack
+                body, ctype = msgpack.packb(doc), 'application/x-msgpack'
+        elif r[0] == 'mrpc':
+            import msgpack
+            body, ctype = msgpack.packb([0, 1, r[1], [{'i': 1}, 'x'] if r[2] else [{'i': 1}]]), 'application/x-msgpack'
         elif r[0] == 'key':
             if p == 'json':
                 body, ctype = json.dumps({r[1]: {}}).encode('utf8'), 'application/json'
@@ -237,9 +353,11 @@ class Built:
                 el = b'<e:Envelope xmlns:e="http://www.w3.org/2003/05/soap-envelope"><e:Body>' + el + b'</e:Body></e:Envelope>'
                 ctype = 'application/soap+xml; charset=utf-8'
             body = el
-        elif r[0] == 'tag':
+        elif r[0] in ('tag', 'mtag', 'btag'):
             ns, loc = r[1], r[2]
-            el = '<%s%s/>' % (loc, '' if ns is None else ' xmlns="%s"' % ns)
+            inner = {'tag': '', 'mtag': '<self><i>1</i></self><s>x</s>', 'btag': 'text'}[r[0]]
+            el = '<%s%s>%s</%s>' % (loc, '' if ns is None else ' xmlns="%s"' % ns, inner, loc) if inner else \
+                '<%s%s/>' % (loc, '' if ns is None else ' xmlns="%s"' % ns)
             if p == 'soap11':
                 el = '<e:Envelope xmlns:e="http://schemas.xmlsoap.org/soap/envelope/"><e:Body>%s</e:Body></e:Envelope>' % el
             elif p == 'soap12':
@@ -340,6 +458,15 @@ def measure_facts():
     f['wsdlQuery'] = 'firstName' if obs == tuple(q_.split('=')[0].lower() == 'wsdl' for q_ in WSDL_QUERY_PROBES) else 'other'
     f['wsdlGetOnly'] = all(isw(v_, p_, q_) == (v_.upper() == 'GET') for v_ in WSDL_VERB_PROBES
                            for p_, q_ in (('/x.wsdl', ''), ('/', 'wsdl')))
+    # member methods, mixed service definitions, documents naming several methods
+    b = Built(W_MEMBER, [0], 'json')
+    f['memberKeyPrefixed'] = (b.error is None and [k for k, _ in b.routes()] == ['{tns}getDoc', '{tns}Doc.rename', '{tns}Doc.doit']
+                              and b.request(('mkey', 'Doc.rename'))[0] == {'ran': [2]})
+    b = Built(W_MIXED, [0], 'null')
+    f['mixedAuxRefused'] = b.error is not None and b.error[0] == 'decl'
+    b = Built(W_PLAIN2, [0], 'json')
+    f['docSingleKey'] = (b.request(('keys', ['foo', 'bar']))[0] == 'Client.fault' and b.request(('keys', []))[0] == 'Client.fault'
+                         and b.request(('keys', ['foo']))[0] == ok)
     b = Built(W_PATDUP, [0], 'http')
     f['patternDup'] = 'reject' if b.error == ('transport', 'ValueError') else ('arbitrary' if b.error is None else 'other')
     return f
@@ -350,11 +477,16 @@ WSDL_PATH_PROBES = ['/x.wsdl', '/xwsdl', '/wsdl', '/refresh_wsdl', '/x.WSDL', '/
 WSDL_QUERY_PROBES = ['wsdl', 'WSDL', 'Wsdl=1&a=2', 'wsdl=', 'a=1&wsdl', 'a=x.wsdl', 'a=wsdl', 'wsdl&a=1', 'xwsdl', 'wsdlx=1', '',
                      'a=1', 'a=1&b=WSDL', 'wsdl=1&a=wsdl', 'a.wsdl=1', 'b=2&wsdl=1', '.wsdl']
 WSDL_VERB_PROBES = ['GET', 'get', 'Get', 'HEAD', 'DELETE', 'POST', 'GETX', 'OPTIONS', '']
+W_MEMBER = {'tns': 'tns', 'services': [_svc('A', [{'fid': 1, 'func': 'getDoc', 'returns': 0}])],
+            'classes': [{'name': 'Doc', 'methods': [{'fid': 2, 'func': 'rename'}, {'fid': 3, 'func': 'other', 'in': 'doit'}]}]}
+W_MIXED = {'tns': 'tns', 'services': [_svc('A', [{'fid': 1, 'func': 'foo', 'auxown': True}, {'fid': 2, 'func': 'bar'}])]}
+W_PLAIN2 = {'tns': 'tns', 'services': [_svc('A', [{'fid': 1, 'func': 'foo'}, {'fid': 2, 'func': 'bar'}])]}
 W_WSDLNAME = {'tns': 'tns', 'services': [_svc('A', [{'fid': 1, 'func': 'refresh_wsdl'}, {'fid': 2, 'func': 'wsdl'}])]}
 
 GOOD = {'auxFirst': 'insertFront', 'ifaceDup': 'reject', 'qualify': 'unlessBrace', 'docPrefixesTns': True,
         'emptyIsNotFound': True, 'patternDup': 'reject', 'binNames': 'strictUtf8',
-        'wsdlPath': 'dotWsdlSuffix', 'wsdlQuery': 'firstName', 'wsdlGetOnly': True}
+        'wsdlPath': 'dotWsdlSuffix', 'wsdlQuery': 'firstName', 'wsdlGetOnly': True,
+        'memberKeyPrefixed': True, 'mixedAuxRefused': True, 'docSingleKey': True}
 FACT_WITNESS = {
     'auxFirst': ('an auxiliary service listed before the primary service of the same method name',
                  {'spec': W_AUXFIRST, 'order': [0, 1], 'other_order': [1, 0]}),
@@ -371,6 +503,11 @@ FACT_WITNESS = {
     'wsdlQuery': ('GET /refresh_wsdl?a=1&wsdl', {'spec': W_WSDLNAME, 'order': [0], 'proto': 'http',
                                                  'request': ['http', 'GET', '/refresh_wsdl', 'a=1&wsdl']}),
     'wsdlGetOnly': ('HEAD /wsdl?wsdl', {'spec': W_WSDLNAME, 'order': [0], 'proto': 'http', 'request': ['http', 'HEAD', '/wsdl', 'wsdl']}),
+    'memberKeyPrefixed': ("the @mrpc method Doc.rename must answer to '{tns}Doc.rename' (and Doc.other(_in_message_name='doit') to '{tns}Doc.doit')",
+                          {'spec': W_MEMBER, 'order': [0], 'proto': 'json', 'request': ['mkey', 'Doc.rename']}),
+    'mixedAuxRefused': ('a service definition with a primary and an auxiliary method must be refused', {'spec': W_MIXED, 'order': [0]}),
+    'docSingleKey': ('a JSON document with two keys (naming two methods) must run nothing',
+                     {'spec': W_PLAIN2, 'order': [0], 'proto': 'json', 'request': ['keys', ['foo', 'bar']]}),
     'patternDup': ('one HttpPattern (GET /same) bound to two methods is accepted; which one answers depends on the '
                    'iteration order of a set of id-hashed objects',
                    {'spec': W_PATDUP, 'order': [0], 'proto': 'http', 'request': ['http', 'GET', '/same']}),
@@ -401,11 +538,15 @@ def facts11 : Facts11 where
   wsdlPath := .%s
   wsdlQuery := .%s
   wsdlGetOnly := %s
+  memberKeyPrefixed := %s
+  mixedAuxRefused := %s
+  docSingleKey := %s
 
 end SpyneModel.Generated
 ''' % (lean_text(f['requestSuffix']), lean_text(f['responseSuffix']), f['auxFirst'], f['ifaceDup'], f['qualify'],
        b(f['docPrefixesTns']), b(f['emptyIsNotFound']), f['patternDup'], f['binNames'],
-       f['wsdlPath'], f['wsdlQuery'], b(f['wsdlGetOnly']))
+       f['wsdlPath'], f['wsdlQuery'], b(f['wsdlGetOnly']),
+       b(f['memberKeyPrefixed']), b(f['mixedAuxRefused']), b(f['docSingleKey']))
 
 
 # ------------------------------------------------------------------------------------ generators
@@ -509,7 +650,7 @@ def gen_spec(rng, fid0, thorough, http=False):
     pool = list(dict.fromkeys(pool))
     collide = rng.choice([0.0, 0.05, 0.05, 0.15, 0.4])       # how often a name that is already taken is reused
     svcnames = rng.sample(['A', 'B', 'S', 'Svc', 'a', 'S.x', 'Auxs', 'C', 'D'], rng.choice([2, 4, 9]))
-    services, fid, taken = [], fid0, []
+    services, fid, taken, noreuse, used = [], fid0, [], set(), set()
     for _ in range(nsvc):
         aux = rng.random() < 0.3
         methods, funcs = [], set()
@@ -521,6 +662,9 @@ def gen_spec(rng, fid0, thorough, http=False):
                 name = rng.choice(free)
             else:
                 name = rng.choice(pool)
+            if name in noreuse:
+                continue
+            fresh = name not in used
             m = {'fid': fid, 'func': name}
             k = rng.random()
             if k < 0.15:                      # custom operation name
@@ -542,18 +686,87 @@ def gen_spec(rng, fid0, thorough, http=False):
             if m['func'] in funcs:
                 continue
             funcs.add(m['func'])
+            used.add(name)
             if not aux:
                 taken.append(name)
             if http and not aux and rng.random() < 0.6:
                 m['patterns'] = [[rng.choice(VERBS), gen_address(rng, pool)] for _ in range(rng.choice([1, 1, 2]))]
+                if len(m['patterns']) == 1 and rng.random() < 0.4:
+                    m['pattern1'] = True                      # `_pattern=` instead of `_patterns=[...]`
+            # shapes of the declaration that must not matter for which function a name reaches
+            if rng.random() < 0.2:
+                m['ctx'] = True                               # @rpc (the function gets the context) instead of @srpc
+            if rng.random() < 0.1:
+                m['header'] = True                            # _in_header / _out_header
+            if rng.random() < 0.1:
+                m['throws'] = True                            # _throws
+            if rng.random() < 0.08:
+                m['bare'] = rng.choice(['bare', 'bare', 'soaprpc', 'soapdoc'])   # _body_style='bare' / _soap_body_style aliases
+                if m['bare'] != 'soapdoc' and rng.random() < 0.5 and xml_safe(name) and not aux and fresh:
+                    noreuse.add(name)                         # (no auxiliaries for it: only the XML protocols can carry the argument)
+                    m['barearg'] = True                       # one primitive argument: the in-message is no generated class
+                    m.pop('patterns', None)                   # (only the XML protocols can carry it)
+                    m.pop('pattern1', None)
+            if not aux and rng.random() < 0.05:
+                m['raises'] = rng.choice(['fault', 'error'])  # the function fails after it was entered
             methods.append(m)
             fid += 1
         if methods:
             # service classes of one name in one module happen when services are produced by a factory
-            services.append({'mod': rng.choice(['m1', 'm1', 'm2']),
-                             'name': rng.choice(svcnames) if rng.random() < 0.5 else 'S%d' % len(services),
-                             'aux': aux, 'methods': methods})
-    return {'tns': tns, 'services': services}, fid
+            svc = {'mod': rng.choice(['m1', 'm1', 'm2']),
+                   'name': rng.choice(svcnames) if rng.random() < 0.5 else 'S%d' % len(services),
+                   'aux': aux, 'methods': methods}
+            if rng.random() < 0.2:
+                svc['clsname'] = 'Cls%d' % len(services)       # __service_name__ differs from the class name
+            if rng.random() < 0.1:
+                svc['keymod'] = rng.choice(['m1', 'm2', 'km'])  # __service_module__
+            k = rng.random()
+            if not aux and k < 0.06:
+                for m in methods:                             # an auxiliary service by way of `_aux=` on every method
+                    m['auxown'] = True
+                    m.pop('raises', None)
+                    m.pop('patterns', None)                   # (HttpBase looks at the patterns of the primary only)
+                    m.pop('pattern1', None)
+            elif not aux and k < 0.09 and len(methods) > 1:
+                methods[-1]['auxown'] = True                  # primary and auxiliary mixed: refused
+                methods[-1].pop('patterns', None)
+                methods[-1].pop('pattern1', None)
+            services.append(svc)
+    spec = {'tns': tns, 'services': services}
+    if services and rng.random() < 0.25:
+        # ComplexModel classes with @mrpc member methods, reachable through a service method that returns them
+        classes = []
+        for cname in rng.sample(['Doc', 'Item', 'doc', 'Doc_'], rng.choice([1, 1, 2])):
+            ms, funcs = [], set()
+            for _ in range(rng.choice([1, 2, 3])):
+                f_ = rng.choice([w for w in WORDS + ['rename', 'wsdl']])
+                if f_ in funcs:
+                    continue
+                funcs.add(f_)
+                m = {'fid': fid, 'func': f_}
+                fid += 1
+                k = rng.random()
+                if k < 0.2:
+                    m['in'] = rng.choice(['doit', cname + '.' + f_ + 'X', 'x.' + f_])
+                if rng.random() < 0.1:
+                    m['out'] = f_ + 'Out'
+                if rng.random() < 0.1:
+                    m['raises'] = rng.choice(['fault', 'error'])
+                if rng.random() < 0.4:
+                    m['marg'] = True                          # one argument besides self
+                ms.append(m)
+            classes.append({'name': cname, 'methods': ms})
+        host = [s_ for s_ in services if not s_['aux'] and not any(m.get('auxown') for m in s_['methods'])]
+        if host:
+            h = rng.choice(host)
+            for ci, c in enumerate(classes):
+                h['methods'].append({'fid': fid, 'func': 'get' + c['name'], 'returns': ci})
+                fid += 1
+                if rng.random() < 0.5:
+                    h['methods'].append({'fid': fid, 'func': 'get' + c['name'] + 'Alt', 'returns': ci, 'returns_alt': True})
+                    fid += 1
+            spec['classes'] = classes
+    return spec, fid
 
 
 def directed_specs():
@@ -580,6 +793,28 @@ def directed_specs():
     out.append(('wsdl-names', {'tns': 'tns', 'services': [S('A', [f(1, 'wsdl'), f(2, 'refresh_wsdl'), f(3, 'status'), f(4, 'x.wsdl')]),
                                                           S('B', [f(5, 'getWSDL'), f(6, 'wsdlx'), f(7, 'impl', op='svc.wsdl')]),
                                                           S('X', [f(8, 'refresh_wsdl'), f(9, 'x.wsdl')], aux=True)]}))
+    out.append(('member-methods', {'tns': 'tns', 'services': [S('A', [f(1, 'getDoc', returns=0), f(2, 'getItem', returns=1), f(3, 'rename'), f(10, 'getDocAlt', returns=0, returns_alt=True)]),
+                                                              S('X', [f(4, 'rename')], aux=True)],
+                                   'classes': [{'name': 'Doc', 'methods': [f(5, 'rename'), f(6, 'other', **{'in': 'doit'}), f(7, 'wsdl', marg=True)]},
+                                               {'name': 'Item', 'methods': [f(8, 'rename', marg=True), f(9, 'q', **{'in': 'Item.quux'})]}]}))
+    out.append(('member-vs-service-name', {'tns': 'tns', 'services': [S('A', [f(1, 'getDoc', returns=0)]), S('B', [f(2, 'impl', **{'in': '{%s}Doc.rename' % OTHER_NS})])],
+                                           'classes': [{'name': 'Doc', 'methods': [f(3, 'rename')]}]}))
+    out.append(('member-class-collision', {'tns': 'tns', 'services': [S('A', [f(1, 'getDoc', returns=0)]), S('B', [f(2, 'impl', **{'in': 'Doc.rename'})])],
+                                           'classes': [{'name': 'Doc', 'methods': [f(3, 'rename')]}]}))
+    out.append(('member-operation-name', {'tns': 'tns', 'services': [S('A', [f(1, 'getDoc', returns=0)])],
+                                          'classes': [{'name': 'Doc', 'methods': [f(3, 'rename', op='ren')]}]}))
+    out.append(('bare-methods', {'tns': 'tns', 'services': [S('A', [f(1, 'foo', bare='bare'), f(2, 'bar', bare='bare', barearg=True), f(3, 'impl', bare='soaprpc', barearg=True, **{'in': 'baz'}),
+                                                                    f(4, 'withctx', ctx=True), f(5, 'h', header=True, throws=True, ctx=True)]),
+                                                            S('B', [f(6, 'Bar', bare='bare', barearg=True, ctx=True), f(7, 'impl2', op='qux', bare='bare')]),
+                                                            S('X', [f(8, 'foo'), f(9, 'bar')], aux=True)]}))
+    out.append(('bare-duplicate', {'tns': 'tns', 'services': [S('A', [f(1, 'bar', bare='bare', barearg=True)]), S('B', [f(2, 'bar', bare='bare', barearg=True, out='barOut')])]}))
+    out.append(('mixed-aux', W_MIXED))
+    out.append(('aux-by-method', {'tns': 'tns', 'services': [S('A', [f(1, 'foo'), f(2, 'bar')]), S('B', [f(3, 'foo', auxown=True), f(4, 'bar', auxown=True)])]}))
+    out.append(('service-name-override', {'tns': 'tns', 'services': [dict(S('S', [f(1, 'foo')]), clsname='K1'), dict(S('S', [f(2, 'bar')]), clsname='K2'),
+                                                                     dict(S('T', [f(3, 'baz')]), keymod='km'), dict(S('T', [f(4, 'baz', **{'in': 'bazz'})]), keymod='km2')]}))
+    out.append(('service-name-override-dup', {'tns': 'tns', 'services': [dict(S('S', [f(1, 'foo')]), clsname='K1'), dict(S('S', [f(2, 'foo', **{'in': 'foo2'})]), clsname='K2')]}))
+    out.append(('service-module-override-dup', {'tns': 'tns', 'services': [dict(S('S', [f(1, 'foo')], mod='m1'), keymod='km'), dict(S('S', [f(2, 'foo', **{'in': 'foo2'})], mod='m2'), keymod='km')]}))
+    out.append(('failing-primary', {'tns': 'tns', 'services': [S('A', [f(1, 'foo', raises='fault'), f(2, 'bar', raises='error'), f(3, 'ok')]), S('X', [f(4, 'foo'), f(5, 'bar'), f(6, 'ok')], aux=True)]}))
     out.append(('confusables', {'tns': 'tns', 'services': [S('A', [f(1, 'ping'), f(2, confuse('ping'))]), S('B', [f(3, 'ping​')])]}))
     P = lambda v, a: [v, a]
     out.append(('patterns-basic', {'tns': 'tns', 'services': [S('A', [f(1, 'foo', patterns=[P(['GET'], '/api/foo')]), f(2, 'bar', patterns=[P(None, '/api/<x>')]), f(3, 'baz', patterns=[P(['GET', 'HEAD'], 'rel/{y}/z')])]), S('X', [f(4, 'foo')], aux=True)]}))
@@ -622,19 +857,56 @@ def declared_name(m):
     return n
 
 
+def spec_info(spec):
+    """fid -> what the declaration says about the function"""
+    info = {}
+    for s in spec['services']:
+        for m in s['methods']:
+            info[m['fid']] = {'aux': bool(s['aux'] or m.get('auxown')), 'member': None, 'm': m}
+    for ci, c in enumerate(spec.get('classes') or []):
+        for m in c['methods']:
+            info[m['fid']] = {'aux': False, 'member': ci, 'm': m, 'type': c['name']}
+    return info
+
+
+def routing_names(spec, names):
+    """(fid, the local name a request has to use) from the names the real descriptors carry; a member method of type T
+    answers to 'T.' + message name unless the message name already starts with 'T.'"""
+    info = spec_info(spec)
+    res = []
+    for fid, name in names:
+        i = info[fid]
+        if i['member'] is not None and name.split('.', 1)[0] != i['type']:
+            name = i['type'] + '.' + name
+        res.append((fid, name))
+    return res
+
+
 def expected_table(spec, names):
-    """public name -> (primary fids, auxiliary fids), from the names the real descriptors carry"""
-    auxof = {m['fid']: s['aux'] for s in spec['services'] for m in s['methods']}
+    """public name -> (primary fids, auxiliary fids)"""
+    info = spec_info(spec)
     tab = {}
     for fid, name in names:
         p, a = tab.setdefault(name, ([], []))
-        (a if auxof[fid] else p).append(fid)
+        (a if info[fid]['aux'] else p).append(fid)
     return tab
+
+
+def named_by(tab, tns, r):
+    """like expected_for, also for names that travel as bytes"""
+    if r[0] in ('rpcb', 'keyb'):
+        t = strict_text(r[1])
+        return t if t in tab else None
+    if r[0] in ('rawkey', 'rawtag', 'keys', 'pkey'):
+        return None
+    return expected_for(tab, tns, r)
 
 
 def expected_for(tab, tns, r):
     """which public name (or None) a request names, by plain string equality in the target namespace"""
     k = r[0]
+    if k in ('mnull', 'mtag', 'mkey', 'mrpc', 'mhttp', 'btag'):
+        k = k[1:]
     if k in ('key', 'rpc'):
         n = r[1]
     elif k == 'tag':
@@ -660,7 +932,13 @@ PROTOS_TAG = ['xml', 'soap11', 'soap12']
 def requests_for(ctx, spec, names, proto, budget):
     rng = ctx.rng
     tns = spec['tns']
-    reg = list(dict.fromkeys(n for _, n in names))
+    info = spec_info(spec)
+    members = [(f_, n) for f_, n in names if info[f_]['member'] is not None]
+    tab_names = set(n for _, n in names)
+    # names that need a payload: member methods ('self'); bare methods with an argument only work over XML
+    special = set(n for _, n in members) | set(n for f_, n in names if info[f_]['m'].get('barearg'))
+    barearg = [n for f_, n in names if info[f_]['m'].get('barearg') and xml_safe(n)]
+    reg = list(dict.fromkeys(n for _, n in names if n not in special))
     cand = list(reg)
     for n in reg:
         nm = near_misses(n)
@@ -702,7 +980,38 @@ def requests_for(ctx, spec, names, proto, budget):
                     reqs.append(('tag', ns, n))
         if ns_safe(tns):
             reqs += [('rawtag', tns, b) for b in bcand if not any(x in b for x in b'<>/ "\'=&')]
-    elif proto == 'http':
+    # member methods (with an instance as payload) and their near misses; bare methods with a text payload
+    mcand = []
+    for f_, n in members[:4]:
+        ci = info[f_]['member']
+        custom_in = info[f_]['m'].get('in') is not None
+        nm = near_misses(n)
+        for x in [n] + nm[:2] + rng.sample(nm, min(2, len(nm))) + [n.split('.', 1)[-1]]:
+            mcand.append((x, ci, custom_in and x == n))
+    bare_names = set(n for f_, n in names if info[f_]['m'].get('barearg'))
+    marg_of = {n: bool(info[f_]['m'].get('marg')) for f_, n in members}
+    mcand = [c for c in dict.fromkeys(mcand) if c[0] not in bare_names]
+    if proto in PROTOS_KEY:
+        # (a member method with an explicit _in_message_name is routed as 'Type.name' but its document key is 'name':
+        #  the dict protocols cannot carry it - see NOTES)
+        reqs += [('mkey', x) for x, _, skipdoc in mcand if not skipdoc]
+        if proto == 'json':
+            reqs += [('pkey', n) for _, n in members[:2]]
+        two = list(dict.fromkeys(reg + ['foo', 'bar']))[:2]
+        reqs += [('keys', tuple(two)), ('keys', ()), ('keys', (two[0], two[0] + 'x', 'zzz'))]
+    elif proto == 'msgpackrpc':
+        reqs += [('mrpc', x, marg_of.get(x, False)) for x, _, _ in mcand]
+    elif proto == 'null':
+        mset = set(n for _, n in members)
+        reqs += [('mnull', x, ci, marg_of.get(x, False)) if x in mset or x not in tab_names else ('null', x) for x, ci, _ in mcand]
+    elif proto in PROTOS_TAG:
+        reqs += [('mtag', tns, x) for x, _, _ in mcand if xml_safe(x) and ns_safe(tns)]
+        reqs += [('mtag', OTHER_NS, x) for x, _, _ in mcand[:1] if xml_safe(x)]
+        for n in barearg[:3]:
+            reqs += [('btag', tns, n), ('btag', tns, n + 'x'), ('btag', OTHER_NS, n)] if ns_safe(tns) else []
+    if proto == 'http':
+        reqs += [('mhttp', 'GET', '/' + x, 'self.i=1&s=x') for x, _, _ in mcand if path_safe(x)]
+    if proto == 'http':
         safe = [n for n in cand if path_safe(n)]
         reqs = [('http', 'GET', rng.choice(['/', '/a/', '/a/b/', '']) + n) for n in safe]
         reqs += [('http', 'GET', '/{%s}%s' % (OTHER_NS.replace('/', ''), n0)), ('http', 'GET', '/%s/' % n0),
@@ -720,7 +1029,20 @@ def requests_for(ctx, spec, names, proto, budget):
                                                     ('GET', '/' + nw + '.WSDL', ''), ('GET', '/x.wsdl/' + nw, ''), ('DELETE', '/' + nw + '.wsdl', ''),
                                                     ('GET', '/a/' + nw, ''), ('get', '/' + nw, ''), ('GET', '/' + nw + 'wsdl', ''))]
         reqs += pattern_requests(ctx, spec)
-    return list(dict.fromkeys(reqs))
+    # a plain request must not name a method that needs a payload
+    def plain_special(r):
+        if r[0] in ('key', 'rpc', 'null'):
+            return r[1] in special or (r[1].startswith('{%s}' % tns) and r[1][len(tns) + 2:] in special)
+        if r[0] == 'tag':
+            return r[2] in special and not (r[2] in barearg)
+        if r[0] == 'http':
+            return r[2].split('/')[-1] in special
+        if r[0] in ('rpcb', 'keyb', 'rawkey'):
+            return strict_text(r[1]) in special
+        if r[0] == 'rawtag':
+            return strict_text(r[2]) in special and strict_text(r[2]) not in barearg
+        return False
+    return [r for r in dict.fromkeys(reqs) if not plain_special(r)]
 
 
 def fill(rng, addr, near=False):
@@ -798,7 +1120,7 @@ def run(ctx):
     # ---- cases
     specs = [(tag, spec, True) for tag, spec in directed_specs()]
     fid = 100
-    n_rand = 2500 if ctx.thorough else 400
+    n_rand = 2500 if ctx.thorough else 300
     for i in range(n_rand):
         spec, fid = gen_spec(ctx.rng, fid, ctx.thorough, http=(i % 3 == 0))
         if spec['services']:
@@ -871,14 +1193,16 @@ def run_spec(ctx, tag, spec, Q, directed):
     if base is None or base.error:
         # still a T3 item: a rejected application must have a reason the property allows
         return
-    names = [(fid_, nm) for fid_, nm, _, _, _ in base.names()]
+    msgnames = [(fid_, nm) for fid_, nm, _, _, _ in base.names()]
+    names = routing_names(spec, msgnames)
     tab = expected_table(spec, names)
+    info = spec_info(spec)
 
     # T3: the name the user declared is the name the method carries
     for s in spec['services']:
         for m in s['methods']:
             dn = declared_name(m)
-            got = dict(names).get(m['fid'])
+            got = dict(msgnames).get(m['fid'])
             if dn is not None and got != dn:
                 ctx.finding('public-name', 'method declared as %r is registered as %r' % (dn, got), {'spec': spec, 'order': ident, 'fid': m['fid']})
     # T3: two primaries answering to one name must not be accepted
@@ -917,7 +1241,12 @@ def run_spec(ctx, tag, spec, Q, directed):
                 ctx.hit('resp:' + (resp if isinstance(resp, str) else next(iter(resp))))
                 ctx.cov['traces_validated_against_impl'] += 1
                 oracle(ctx, spec, o, proto, r, resp, status, tab, amb)
-            skip = [i for i, r in enumerate(reqs) if (amb and r[0] == 'http') or r[0] in ('rawkey', 'rawtag')]
+            failing = set(n_ for f_, n_ in names if info[f_]['m'].get('raises'))
+            skip = [i for i, r in enumerate(reqs) if (amb and r[0] == 'http') or r[0] in ('rawkey', 'rawtag', 'pkey')
+                    or (r[0] != 'keys' and named_by(tab, spec['tns'], r) in failing)]
+            raising = set(f_ for f_, i_ in info.items() if i_['m'].get('raises'))
+            skip += [i for i, a in enumerate(impl) if isinstance(a, dict) and (a.get('other') or {}).get('calls')
+                     and set(a['other']['calls']) <= raising]      # reached through an HttpPattern
             Q.append((q_app(spec, o, reqs), impl, 'serve', {'spec': spec, 'order': o, 'proto': proto, 'reqs': reqs, 'skip': skip}))
 
 
@@ -925,7 +1254,7 @@ def check_orders(ctx, spec, outcomes):
     """T3: acceptance, the primary function of every key and its auxiliaries do not depend on the listing order"""
     o0, b0, out0 = outcomes[0]
     acc0 = 'routes' in out0
-    auxof = {m['fid']: s['aux'] for s in spec['services'] for m in s['methods']}
+    auxof = {f_: i_['aux'] for f_, i_ in spec_info(spec).items()}
 
     def shape(out):
         # key -> (the primary function or None, the set of auxiliary functions)
@@ -964,7 +1293,7 @@ def declared_patterns(spec, names):
         res = []
         for s in spec['services']:
             for m in s['methods']:
-                if s['aux']:
+                if s['aux'] or m.get('auxown'):
                     continue
                 for v, addr in m.get('patterns') or []:
                     res.append((HttpPattern(addr, verb=None if v is None else '|'.join(v)), m['fid'], nm.get(m['fid'])))
@@ -997,6 +1326,20 @@ def oracle(ctx, spec, order, proto, r, resp, status, tab, amb):
     tns = spec['tns']
     rep = {'spec': spec, 'order': order, 'proto': proto, 'request': [list(x) if isinstance(x, tuple) else x for x in r],
            'got': resp, 'status': status}
+    if r[0] == 'pkey':
+        # a member method without the instance it is to run on: nothing may run (spyne answers not-found for the instance)
+        ctx.hit('t3:member-without-instance')
+        if resp not in ('Client.ResourceNotFound', 'Client.fault'):
+            ctx.finding('member-without-instance', 'json request naming the member method %r without an instance was answered with %r' % (r[1], resp), rep)
+        return
+    if r[0] == 'keys':
+        # a dict document with no key or several keys names no method (or several): nothing may run
+        ctx.hit('t3:doc-keys:%d' % len(r[1]))
+        if len(r[1]) != 1 and not (resp in ('Client.fault', 'Client.ResourceNotFound')):
+            ctx.hit('t3-fail:doc-keys')
+            ctx.finding('doc-keys:%s' % ('ran' if isinstance(resp, dict) and (resp.get('ran') or (resp.get('other') or {}).get('calls')) else 'no-client-fault'),
+                        '%s document with the keys %r was answered with %r' % (proto, list(r[1]), resp), rep)
+        return
     if r[0] in ('rpcb', 'keyb', 'rawkey', 'rawtag'):
         # the name travels as bytes: only the exact UTF-8 encoding of a registered name may run anything
         bs = r[1] if r[0] != 'rawtag' else r[2]
@@ -1068,6 +1411,16 @@ def oracle(ctx, spec, order, proto, r, resp, status, tab, amb):
         return      # reported as dup-name-accepted
     ctx.hit('t3:registered')
     ran = resp.get('ran') if isinstance(resp, dict) else None
+    fails = [f_ for f_ in p if spec_info(spec)[f_]['m'].get('raises')]
+    if fails:
+        # the primary function fails after it was entered: it ran once, nothing else ran (auxiliaries are skipped)
+        ctx.hit('t3:failing-primary')
+        got = (resp.get('other') or {}) if isinstance(resp, dict) else {}
+        if got.get('calls') != p or not got.get('faults'):
+            ctx.hit('t3-fail:failing-primary')
+            ctx.finding('failing-primary:wrong-run', '%s request %r names %r whose function %r raises: expected exactly that one call and a '
+                        'fault, got %r' % (proto, list(r), name, p, resp), rep)
+        return
     ok = ran is not None and sorted(ran) == sorted(p + a) and (not p or ran[0] == p[0]) and len(set(ran)) == len(ran)
     if not ok:
         ctx.hit('t3-fail:registered')
@@ -1154,7 +1507,7 @@ def compare(ctx, op, q, impl, mod, meta):
         return
     for i, (r, a, b) in enumerate(zip(meta['reqs'], impl, mod['resp'])):
         if i in meta['skip']:
-            ctx.hit('t2-skipped:' + ('third-party-parser' if r[0].startswith('raw') else 'ambiguous-patterns'))
+            ctx.hit('t2-skipped:' + ('third-party-parser' if r[0].startswith('raw') else 'ambiguous-patterns-or-failing-function'))
             continue
         if a != b:
             ctx.disagree('dispatch:' + meta['proto'], {'spec': meta['spec'], 'order': meta['order'], 'proto': meta['proto'], 'request': list(r)}, a, b)
